@@ -35,7 +35,11 @@ type c11Case struct {
 	ImportEdit string `json:"import_edit,omitempty"`
 	// Typed: decorated with the types-based resolver over a type-checked parse; SkipObj: parsed with
 	// parser.SkipObjectResolution (no identifier carries an Obj)
-	Typed   bool `json:"typed,omitempty"`
+	// ListEdit: between decoration and restoration one element of one list of the tree is deleted ("del:<slot>") or
+	// a clone of it appended to its list ("dup:<slot>"); <slot> indexes allSlots of the decorated file. The restorer's
+	// maps must describe the edited tree.
+	ListEdit string `json:"list_edit,omitempty"`
+	Typed    bool   `json:"typed,omitempty"`
 	SkipObj bool `json:"skip_object_resolution,omitempty"`
 }
 
@@ -315,6 +319,21 @@ func init() {
 			if ctx.Thorough() {
 				k = 2
 			}
+			// every list of the tree edited once between decoration and restoration: each element deleted, each element
+			// duplicated (a clone appended)
+			if f0, err := decorator.Parse(t.Src); err == nil {
+				for si, sl := range allSlots(f0) {
+					if sl.Index < 0 {
+						continue
+					}
+					for _, e := range []string{"del", "dup"} {
+						cs := c11Case{Src: t.Src, Template: t.Name, ListEdit: fmt.Sprintf("%s:%d", e, si)}
+						ctx.State(fmt.Sprint("list-edit|", t.Name, "|", cs.ListEdit), true)
+						ctx.R.Transitions++
+						ctx.Eval(cs, c11Check(cs))
+					}
+				}
+			}
 			forEachCanonical(ctx, t, gen.Sigma, k, 0, 1, func(gc GapCase) {
 				for _, res := range []bool{false, true} {
 					cs := c11Case{Src: gc.Src, Resolver: res, Template: t.Name}
@@ -431,6 +450,18 @@ func c11Check(cs c11Case) core.Outcome {
 		return fail(k, "Decorator.Map: "+d)
 	}
 	checkMapsQualified = nil // the restored ast is judged by its syntax
+	if cs.ListEdit != "" {
+		var si int
+		kind := cs.ListEdit[:3]
+		fmt.Sscanf(cs.ListEdit[4:], "%d", &si)
+		sl := allSlots(df)[si]
+		lv := reflect.ValueOf(sl.Parent).Elem().FieldByName(sl.Field)
+		if kind == "del" {
+			lv.Set(reflect.AppendSlice(lv.Slice(0, sl.Index).Slice3(0, sl.Index, sl.Index), lv.Slice(sl.Index+1, lv.Len())))
+		} else {
+			lv.Set(reflect.Append(lv, reflect.ValueOf(dst.Clone(sl.Get()))))
+		}
+	}
 	var alias map[string]string
 	switch cs.ImportEdit {
 	case "":
